@@ -111,7 +111,7 @@ def write_mc(d, consts, kf, invariants=(), properties=(), spec="Spec", export=Fa
         prelude = [dict(a="Query", p="A")] + prelude
         drain = True
     c = dict(MaxSend=0, MaxFlight=2, MaxTick=0, MaxEnd=0, MaxQuery=0, MaxExtra=0,
-             NetMode="fifo", MaxDup=0, MaxDrop=0)
+             NetMode="fifo", MaxDup=0, MaxDrop=0, AllPol=False, MaxOffer=0)
     c.update({k: v for k, v in consts.items() if k not in ("PolA", "PolB", "VerA", "VerB", "Setup", "Prelude", "PreludeDrain")})
     c["PreludeDrain"] = drain
     mc = ["---- MODULE MC ----", "EXTENDS OTRModel",
